@@ -16,6 +16,8 @@ mod stamp;
 mod traits;
 mod variants;
 mod version;
+#[cfg(anydb_verif)]
+pub mod verif_hooks;
 
 use variants::*;
 
